@@ -10,6 +10,15 @@ with the same measurement on fresh caches, CorrFunc.from_file, CorrData.from_fil
 class (error / equals old / equals new / other) must equal the model's (c08_case) and "other" is a
 failure of the property itself.  Thorough tier: a sample of crash points is also produced for real
 with strace's SIGKILL injection and must equal the replayed prefix byte for byte.
+
+Result products under user-given names (workload kind "product"): CorrData / RedshiftData / HistData.to_files,
+CorrFunc.to_file and Configuration.to_file are run over generated path SHAPES (dots in the last component, a
+trailing suffix that looks like an extension, leading / trailing dot, dotted nested directories, relative to the
+working directory or to a subdirectory, str or pathlib.Path) and over prior states that the implementation
+itself produced under the same path (a complete older product, leftovers of an earlier crash, nothing).  The
+file names the implementation derives from the path when it removes, writes and reads are taken from the traces
+(unlink attempts, writes, read-only opens) and are parameters of the model (WProduct: theorems
+C08_crash_safe_product / C08_names_ok); recovery = the same class' from_files / from_file on the same path.
 """
 import json
 import os
@@ -44,7 +53,8 @@ ASSUMPTIONS = [
     "sample (unbinned request) against fixed untouched catalogs",
 ]
 RULE = ("case = (scale, workload, prior state, crash position k, later request); distinct by that tuple; non-trivial when "
-        "0 < k < number of operations (a state that exists only if the process dies there)")
+        "0 < k < number of operations (a state that exists only if the process dies there); a product workload is "
+        "(class, path shape, str|Path, working directory, prior state)")
 
 HEADER = "From Verif Require Import Prelude FsCrash.\nOpen Scope nat_scope.\n"
 
@@ -325,6 +335,123 @@ def effective_ops(prior, ops):
     return out
 
 
+# ------------------------------------------------------------------ result products under user-given names
+TRIPLES, SINGLES = drv.TRIPLES, drv.SINGLES
+TOKENS = ["z0", "2-1", "4", "v1", "0", "2024", "05", "tomo", "bin3", "1e-3"]
+STEMS = ["nz", "w_sp", "run", "cd", "x_y", "n"]
+DIRS = ["out.d", "v1.0", "run.2", "plain", "a.b.c"]
+TRIPLE_TAILS = ["", "", "", ".dat", ".smp", ".cov", ".txt", ".hdf5", ".", ".0"]
+SINGLE_EXTS = {"CorrFunc": [".hdf5", ".hdf5", ".h5", "", ".hdf", ".hdf5.bak"],
+               "Configuration": [".yml", ".yaml", ".yml", "", ".yml.orig", ".cfg"]}
+MODES = ["abs", "abs", "rel", "rel-dot", "rel-sub", "rel-up"]
+TRIPLE_PRIORS = ["full", "full", "full", "none", "dat+cov", "smp-only", "smp+cov"]
+
+
+def shape(what, last, dirs=(), mode="abs", as_path=False, prior="full"):
+    return dict(what=what, last=last, dirs=list(dirs), mode=mode, as_path=bool(as_path), prior=prior)
+
+
+def gen_shape(rng, what):
+    """one path shape: the last component gets 1-3 extra dots (plus, sometimes, a leading dot / a tail that looks
+    like an extension); 0-2 dotted directories; absolute or relative in four ways; str or Path"""
+    ndots = rng.choice([1, 1, 1, 2, 3])
+    last = rng.choice(STEMS) + "".join("." + rng.choice(TOKENS) for _ in range(ndots))
+    if rng.random() < 0.12:
+        last = "." + last
+    last += rng.choice(TRIPLE_TAILS if what in TRIPLES else SINGLE_EXTS[what])
+    dirs = [rng.choice(DIRS) for _ in range(rng.choice([0, 0, 1, 2]))]
+    mode = rng.choice(MODES)
+    if mode in ("rel-sub", "rel-up") and not dirs:
+        dirs = [rng.choice(DIRS)]
+    prior = rng.choice(TRIPLE_PRIORS) if what in TRIPLES else rng.choice(["full", "full", "none"])
+    return shape(what, last, dirs, mode, rng.random() < 0.5, prior)
+
+
+def core_shapes():
+    """shapes that are part of every run"""
+    return [
+        shape("CorrData", "nz_z0.2-1.4"),
+        shape("CorrData", "cd", prior="full"),                                   # no dot at all: the plain case
+        shape("RedshiftData", "nz.tomo.1", ["out.d", "v1.0"], "rel", True),
+        shape("HistData", "hist.2024.dat", [], "abs", True),
+        shape("CorrData", "nz.v1.smp", ["run.2"], "rel-sub", False, "smp-only"),
+        shape("RedshiftData", "nz_0.5", ["plain"], "rel-up", False, "dat+cov"),
+        shape("HistData", ".hz.v2", [], "rel-dot", False, "none"),
+        shape("CorrFunc", "w_sp.z0.2-1.4.hdf5"),
+        shape("CorrFunc", "w_ss.v1", ["out.d"], "rel", True),
+        shape("Configuration", "setup.v1.0.yml", [], "rel-dot", False),
+        shape("Configuration", "run.2024.cfg", ["a.b.c"], "abs", True, "none"),
+    ]
+
+
+def shape_layout(sh):
+    """-> (relative path of the product below the workload directory, working directory relative to it or None,
+    the argument as the user writes it for a workload directory `live` (callable))"""
+    rel = os.path.join(*(sh["dirs"] + [sh["last"]]))
+    mode = sh["mode"]
+    if mode == "abs":
+        return rel, None, lambda live: os.path.join(live, rel)
+    if mode == "rel":
+        return rel, ".", lambda live: rel
+    if mode == "rel-dot":
+        return rel, ".", lambda live: "./" + rel
+    sub = sh["dirs"][0]
+    rest = os.path.join(*(sh["dirs"][1:] + [sh["last"]]))
+    if mode == "rel-sub":
+        return rel, sub, lambda live: rest
+    if mode == "rel-up":
+        return rel, sub, lambda live: os.path.join("..", sub, rest)
+    raise ValueError(mode)
+
+
+def shape_class(sh):
+    """histogram label of a shape"""
+    last = sh["last"]
+    core = last[1:] if last.startswith(".") else last
+    nd = core.count(".")
+    tail = os.path.splitext(last)[1] if nd else ""
+    looks = "ext-like-tail" if tail in (".dat", ".smp", ".cov", ".hdf5", ".h5", ".yml", ".yaml") else "other-tail" if tail else "no-tail"
+    return "%s:%s:dots=%s:%s:%s:dirs=%d:prior=%s" % (sh["what"], sh["mode"], "0" if nd == 0 else "1" if nd == 1 else "2+", looks,
+                                                 "Path" if sh["as_path"] else "str", len(sh["dirs"]), sh["prior"])
+
+
+def norm_h5(data):
+    """see Abstraction.norm"""
+    if data[:9] == b"\x89HDF\r\n\x1a\n\x00" and len(data) >= 24:
+        return data[:20] + b"\0\0\0\0" + data[24:]
+    return data
+
+
+class ProductAbstraction:
+    """bytes -> model contents for one product workload: a file is complete with value v when its bytes are those of
+    a file an uninterrupted write of (class, v) produced (at a plain reference path), incomplete when it is a strict
+    prefix of one (HDF5: anything else).  Paths are numbered injectively per workload (POther i)."""
+
+    def __init__(self, what, table, names):
+        self.what, self.table = what, table          # table: bytes -> value id
+        self.idx = {rel: i + 1 for i, rel in enumerate(sorted(set(names) - {"."}))}
+
+    def path(self, rel):
+        if rel == ".":
+            return "PRoot"
+        if rel not in self.idx:
+            self.idx[rel] = len(self.idx) + 1
+        return "(POther %d)" % self.idx[rel]
+
+    def content(self, rel, data):
+        if self.what == "CorrFunc":
+            v = self.table.get(norm_h5(data))
+            return "(ResF (Some %d))" % v if v is not None else "(ResF None)"
+        v = self.table.get(data)
+        if v is not None:
+            return "(ResF (Some %d))" % v
+        return "(ResF None)" if any(c.startswith(data) for c in self.table) else "Junk"
+
+    state = Abstraction.state
+    fops = Abstraction.fops
+
+
+
 # ------------------------------------------------------------------ one scale
 class Scale:
     def __init__(self, ctx, W, tag, scale):
@@ -336,6 +463,7 @@ class Scale:
         self.res_digest = {}  # "A"/"B" -> {"corrfunc": d, "corrdata": d}
         self.wl = []          # workload descriptions
         self.scratch = os.path.join(self.root, "scratch")
+        self.prod = {}        # product class -> {"table": bytes -> value id, "role": bytes -> ext, "digest": {"A","B"}}
 
     def p(self, *a):
         return os.path.join(self.root, *a)
@@ -397,6 +525,28 @@ class Scale:
                 self.ab.results[("cf.hdf5", self.ab.norm("cf.hdf5", fh.read()))] = VAL[ds]
         assert self.res_digest["A"]["corrfunc"] != self.res_digest["B"]["corrfunc"]
         assert self.res_digest["A"]["corrdata"] != self.res_digest["B"]["corrdata"]
+        # reference products of every class: an uninterrupted write to a plain path without any dot in the prefix
+        # ("ref"; single files get their conventional extension) in a directory of its own; whatever files appear
+        # there are the complete files of (class, value)
+        for what in TRIPLES + SINGLES:
+            info = {"table": {}, "role": {}, "digest": {}}
+            for ds in ("A", "B"):
+                d = self.p("res", "named", what, ds)
+                os.makedirs(d)
+                arg = os.path.join(d, "ref" + {"CorrFunc": ".hdf5", "Configuration": ".yml"}.get(what, ""))
+                W.must({"cmd": "write_named", "what": what, "value": ds, "res_dir": self.p("res"), "arg": arg})
+                info["digest"][ds] = W.must({"cmd": "read_named", "what": what, "arg": arg})["result"]
+                assert not info["digest"][ds].startswith("error"), (what, ds, info["digest"])
+                for fn in sorted(os.listdir(d)):
+                    with open(os.path.join(d, fn), "rb") as fh:
+                        data = fh.read()
+                    key = norm_h5(data) if what == "CorrFunc" else data
+                    assert info["table"].get(key, VAL[ds]) == VAL[ds], "products A and B share a file: cannot tell them apart"
+                    info["table"][key] = VAL[ds]
+                    info["role"][key] = os.path.splitext(fn)[1]
+                assert len(os.listdir(d)) == (3 if what in TRIPLES else 1), (what, os.listdir(d))
+            assert info["digest"]["A"] != info["digest"]["B"], what
+            self.prod[what] = info
 
     def with_trees(self, dest, ds, bname):
         shutil.copytree(self.p("fresh", ds), dest)
@@ -447,6 +597,8 @@ class Scale:
         add("corrdata_fresh", "corrdata", None, "B", res_dir([]), source=self.p("res", "cdB"))
         add("corrdata_over", "corrdata", "A", "B",
             res_dir([("cdA.dat", "cd.dat"), ("cdA.smp", "cd.smp"), ("cdA.cov", "cd.cov")]), source=self.p("res", "cdB"))
+        for j, sh in enumerate(self.product_shapes()):
+            self.add_product(add, "p%02d_%s" % (j, sh["what"]), sh)
         if only:
             wl = [w for w in wl if w["name"] in only]
         for w in wl:
@@ -454,6 +606,60 @@ class Scale:
             if os.path.isdir(w["live"]):
                 shutil.copytree(w["live"], prior)
         self.wl = wl
+
+    # ---- result products under user-given names
+    def product_shapes(self):
+        """the deterministic core on every scale; the random shapes on the small scale only"""
+        shapes = core_shapes()
+        if self.tag == "s":
+            rng = self.ctx.rng
+            n_t, n_s = self.ctx.n(12, 40), self.ctx.n(3, 10)
+            shapes += [gen_shape(rng, rng.choice(TRIPLES)) for _ in range(n_t)]
+            shapes += [gen_shape(rng, what) for what in SINGLES for _ in range(n_s)]
+        seen, out = set(), []
+        for sh in shapes:
+            key = json.dumps(sh, sort_keys=True)
+            if key not in seen:
+                seen.add(key)
+                out.append(sh)
+        return out
+
+    def add_product(self, add, name, sh):
+        what = sh["what"]
+        rel, cwd_rel, argf = shape_layout(sh)
+
+        def make_prior(live):
+            os.makedirs(os.path.join(live, os.path.dirname(rel)))
+            if sh["prior"] == "none":
+                return
+            # the older product is written by the implementation itself, through the same path
+            self.W.must({"cmd": "write_named", "what": what, "value": "A", "res_dir": self.p("res"), "arg": argf(live),
+                         "as_path": sh["as_path"], "cwd": None if cwd_rel is None else os.path.join(live, cwd_rel)})
+            keep = {"full": None, "dat+cov": (".dat", ".cov"), "smp-only": (".smp",), "smp+cov": (".smp", ".cov")}[sh["prior"]]
+            if keep is not None:
+                # leftovers of an earlier crash / clean-up: which file is which is read off its content
+                for d, _, fns in os.walk(live):
+                    for fn in fns:
+                        with open(os.path.join(d, fn), "rb") as fh:
+                            role = self.prod[what]["role"].get(fh.read())
+                        assert role is not None, "older product holds an unknown file %s" % fn
+                        if role not in keep:
+                            os.unlink(os.path.join(d, fn))
+
+        add(name, "product", "A" if sh["prior"] == "full" else None, "B", make_prior, shape=sh)
+
+    def cwd_of(self, w, live):
+        if w["kind"] != "product":
+            return None
+        cwd_rel = shape_layout(w["spec"]["shape"])[1]
+        return None if cwd_rel is None else os.path.normpath(os.path.join(live, cwd_rel))
+
+    def arg_of(self, w, live):
+        return shape_layout(w["spec"]["shape"])[2](live)
+
+    def ab_for(self, w):
+        return w["ab"] if w["kind"] == "product" else self.ab
+
 
     def driver_spec(self, base, marks):
         """spec for c08_driver.py workloads with all live directories below `base` (= self.root for the reference run)"""
@@ -473,6 +679,10 @@ class Scale:
                 it.update(path=os.path.join(live, "cf.hdf5"), source=w["spec"]["source"])
             elif w["kind"] == "corrdata":
                 it.update(prefix=os.path.join(live, "cd"), source=w["spec"]["source"])
+            elif w["kind"] == "product":
+                sh = w["spec"]["shape"]
+                it.update(what=sh["what"], value=w["new_ds"], res_dir=self.p("res"), arg=self.arg_of(w, live),
+                          as_path=sh["as_path"], cwd=self.cwd_of(w, live))
             items.append(it)
         return {"marks": marks, "workloads": items}
 
@@ -493,7 +703,15 @@ class Scale:
         ok_all = True
         for w in self.wl:
             w["prior_state"] = rp.DirState.load(self.p("wl", w["name"], "prior"))
-            w["ops"] = effective_ops(w["prior_state"], tr.file_ops(segs[w["name"]], w["live"]))
+            cwd = self.cwd_of(w, w["live"])
+            w["ops"] = effective_ops(w["prior_state"], tr.file_ops(segs[w["name"]], w["live"], cwd=cwd))
+            if w["kind"] == "product":
+                # the names the implementation derives from the user's path: removed (attempts count: a name that
+                # does not exist is still a derived name), written (the operations), read (second trace segment)
+                w["nd"] = tr.name_attempts(segs[w["name"]], w["live"], cwd)[0]
+                w["nr"] = tr.name_attempts(segs[w["name"] + "#read"], w["live"], cwd)[1]
+                names = list(w["prior_state"].files) + list(w["prior_state"].dirs) + [o["path"] for o in w["ops"]] + w["nd"] + w["nr"]
+                w["ab"] = ProductAbstraction(w["spec"]["shape"]["what"], self.prod[w["spec"]["shape"]["what"]]["table"], names)
             final = rp.replay_all(w["prior_state"], w["ops"])
             diff = final.diff_dir(w["live"])
             if diff:
@@ -506,9 +724,24 @@ class Scale:
 
     # ---- model terms
     def workload_term(self, w):
-        ab = self.ab
+        ab = self.ab_for(w)
         s0 = ab.state(w["prior_state"])
         k = w["kind"]
+        if k == "product":
+            # per written file (in order of first write): system calls that leave it incomplete / complete
+            f = ab.fops(w["prior_state"], w["ops"])
+            ws, seen = [], {}
+            for op, term in zip(w["ops"], f):
+                if not term.startswith("Put"):
+                    continue
+                if op["path"] not in seen:
+                    seen[op["path"]] = [ab.path(op["path"]), 0, 0]
+                    ws.append(seen[op["path"]])
+                seen[op["path"]][1 if term.endswith("(ResF None)") else 2] += 1
+            return "(WProduct %s [%s] [%s] [%s] %d)" % (
+                s0, "; ".join(ab.path(x) for x in w["nd"]),
+                "; ".join("(%s, (%d, %d))" % (nm, max(ni - 1, 0), max(nc - 1, 0)) for nm, ni, nc in ws),
+                "; ".join(ab.path(x) for x in w["nr"]), VAL[w["new_ds"]])
         if k == "create":
             return "(WCreate %s)" % self.pieces_term(w["new_ds"])
         if k == "overwrite":
@@ -569,6 +802,19 @@ class Scale:
             a = a and m == old["measure"][req]
             b = b and m == new["measure"][req]
             return (4 if a and b else 2 if a else 3 if b else 1), det
+        if kind == "product":
+            sh = w["spec"]["shape"]
+            rs = self.W.call({"cmd": "read_named", "what": sh["what"], "arg": self.arg_of(w, d), "as_path": sh["as_path"],
+                              "cwd": self.cwd_of(w, d)})
+            if "dead" in rs:
+                return 1, {"worker": rs["dead"]}
+            r = rs["result"]
+            if r.startswith("error"):
+                return 0, {"result": r}
+            dg = self.prod[sh["what"]]["digest"]
+            a = w["prior_ds"] is not None and r == dg[w["prior_ds"]]
+            b = r == dg[w["new_ds"]]
+            return (4 if a and b else 2 if a else 3 if b else 1), {"result": r[:24]}
         if kind == "corrfunc":
             rs = self.W.call({"cmd": "read_corrfunc", "path": os.path.join(d, "cf.hdf5")})
             key = "corrfunc"
@@ -609,6 +855,14 @@ class Scale:
                 return "c08-trees-stale-marker"
             return "c08-trees-other:%s" % self.position(w, k).split(",")[0]
         pos = self.position(w, k).split(",")[0]          # coarse position class: the operation just completed
+        if kind == "product":
+            what = w["spec"]["shape"]["what"]
+            tab = self.prod[what]["table"]
+            vals = {tab.get(norm_h5(st.files[f]) if what == "CorrFunc" else st.files[f]) for f in w["nr"] if f in st.files}
+            if len(vals) > 1 and None not in vals:
+                # every file the reader opens is complete, but they belong to different products
+                return "c08-product-read-mixes-old-and-new-files:%s" % what
+            return "c08-product-other:%s:%s" % (what, pos.split(":")[0])
         if kind in ("create", "overwrite"):
             if (st.files.get("patch_ids.bin") == b"" and det.get("ids") == []
                     and self.position(w, k) == "after-open:patch_ids.bin,before-write:patch_ids.bin"):
@@ -639,7 +893,9 @@ def sweep(ctx, S, cases):
                 if cls == 1:
                     c["sig"] = S.signature(w, k, st, req, det)
                 cases.append(c)
-                ctx.count(key=(S.tag, w["name"], k, req), nontrivial=0 < k < n, kind="%s:%s" % (w["name"], ["error", "OTHER", "old", "new", "old=new"][cls]))
+                label = w["name"] if w["kind"] != "product" else "product:" + shape_class(w["spec"]["shape"])
+                ctx.count(key=(S.tag, w["name"], k, req) if w["kind"] != "product" else (S.tag, json.dumps(w["spec"]["shape"], sort_keys=True), k),
+                          nontrivial=0 < k < n, kind="%s:%s" % (label, ["error", "OTHER", "old", "new", "old=new"][cls]))
         ctx.log("scale %s %-22s %3d ops, %d crash points x %d requests  (%.1fs)" % (S.tag, w["name"], n, n + 1, len(reqs), time.time() - t0))
 
 
@@ -649,7 +905,7 @@ def coq_compare(ctx, scales, cases):
     for S in scales:
         for w in S.wl:
             w["term"] = S.workload_term(w)
-            w["impl_ops"] = "[" + "; ".join(S.ab.fops(w["prior_state"], w["ops"])) + "]"
+            w["impl_ops"] = "[" + "; ".join(S.ab_for(w).fops(w["prior_state"], w["ops"])) + "]"
             wl_index.append((S, w))
     defs = []
     for j, (S, w) in enumerate(wl_index):
@@ -666,8 +922,10 @@ def coq_compare(ctx, scales, cases):
         w["ops_ok"] = {False: cur == 0, True: fix == 0}
         w["hyp"] = hyp
         if hyp != 0:
-            ctx.obligation("hypotheses:%s/%s (wf prior state, valid deletion order, consistent tree caches)" % (S.tag, w["name"]),
-                           False, "c08_hyp = %r" % hyp)
+            ctx.obligation("hypotheses:%s/%s (wf prior state, valid deletion order, consistent tree caches; product: every name that "
+                           "is read is written, and removed beforehand unless written first)" % (S.tag, w["name"]),
+                           False, "c08_hyp = %r%s" % (hyp, "" if w["kind"] != "product" else
+                                                      " names removed=%r read=%r" % (w["nd"], w["nr"])))
     ctx.extra["hypotheses_checked"] = sum(1 for _, w in wl_index if w["hyp"] == 0)
     # (ii) crash points, both variants
     terms = []
@@ -698,11 +956,18 @@ def verdicts(ctx, wl_index, cases):
         for c in cs:
             if c["cls"] == 1:
                 prior = "nothing" if w["prior_ds"] is None else "dataset %s%s" % (w["prior_ds"], "" if w["kind"] != "build" else " + its tree cache")
+                if w["kind"] == "product":
+                    sh = w["spec"]["shape"]
+                    prior = ("%s.%s(%s(%r)) with working directory %r; older product written through the same path: %s; files left "
+                             "by the crash: %s; names removed %r, read %r"
+                             % (sh["what"], "to_files" if sh["what"] in TRIPLES else "to_file", "Path" if sh["as_path"] else "str",
+                                S.arg_of(w, "<dir>"), S.cwd_of(w, "<dir>"), sh["prior"],
+                                sorted(rp.replay_all(w["prior_state"], w["ops"][:c["k"]]).files), w["nd"], w["nr"]))
                 what = ("workload %s (scale %s, prior state: %s), crash %s (after %d of %d operations), later request %s: "
                         "recovery succeeds with a result that is neither the old nor the new state: %s"
                         % (w["name"], S.tag, prior, c["pos"], c["k"], len(w["ops"]), c["req"], json.dumps(c["det"])))
                 ctx.fail(c["sig"], what, dict(scale=S.tag, scale_params=S.scale, workload=w["name"], k=c["k"], request=c["req"],
-                                              position=c["pos"], detail=c["det"],
+                                              position=c["pos"], detail=c["det"], shape=w["spec"].get("shape"),
                                               ops=[dict(op=o["op"], path=o["path"], nbytes=len(o.get("data", b""))) for o in w["ops"]]),
                          case=c["idx"])
         if not w["ops_ok"][fixed]:
@@ -728,6 +993,9 @@ def probes(ctx, scales, cases):
             lambda c: c["w"]["name"] == "create" and c["pos"] == "after-open:patch_ids.bin,before-write:patch_ids.bin",
         "F18 mixed triple (corrdata_over, new .dat written, .smp still old)":
             lambda c: c["w"]["name"] == "corrdata_over" and c["pos"] == "after-write:cd.dat,before-open:cd.smp",
+        "F18 under a prefix with dots (CorrData.to_files('nz_z0.2-1.4') over an older product written through the same "
+        "path, first file rewritten, second not yet reopened)":
+            lambda c: c["w"]["name"] == "p00_CorrData" and c["k"] == len(c["w"]["ops"]) - 4,
     }
     seen = {}
     for name, pred in want.items():
@@ -773,7 +1041,7 @@ def sigkill_crosscheck(ctx, S, n_runs):
         if not order or order[-1] != w["name"]:
             res["status"] = "miss (killed in %s)" % (order[-1] if order else "startup")
             return res
-        got = effective_ops(w["prior_state"], tr.file_ops(segs[w["name"]], live))
+        got = effective_ops(w["prior_state"], tr.file_ops(segs[w["name"]], live, cwd=S.cwd_of(w, live)))
         strip = lambda ops: [{a: b for a, b in o.items() if a != "nth"} for o in ops]
         if strip(got) != strip(w["ops"][:k]):
             res["status"] = "miss (%d ops completed instead of %d)" % (len(got), k)
